@@ -76,14 +76,14 @@ def gen_metamodel(rng, k):
     atypes = [E.EString, E.EInt, E.EBoolean, E.EDouble, E.EDate, E.ELong] + enums + dts
     for c in classes:
         for _ in range(rng.randint(0, 3)):
-            lo, up = rng.choice([(0, 1), (1, 1), (0, -1), (1, -1), (2, 5)])
+            lo, up = rng.choice([(0, 1), (1, 1), (0, -1), (1, -1), (2, 5), (0, -2)])     # (-2: 'unspecified', many-valued like -1)
             a = E.EAttribute(nm(), rng.choice(atypes), lower=lo, upper=up, ordered=rng.random() < .8, unique=rng.random() < .7,
                              iD=rng.random() < .1, changeable=rng.random() < .9, derived=False)
             if rng.random() < .2 and a.eType in (E.EInt, E.EString):
                 a.defaultValueLiteral = '7' if a.eType is E.EInt else 'dflt'
             add(c.eStructuralFeatures, a)
         for _ in range(rng.randint(0, 2)):
-            lo, up = rng.choice([(0, 1), (1, 1), (0, -1), (0, 3)])
+            lo, up = rng.choice([(0, 1), (1, 1), (0, -1), (0, 3), (0, -2)])
             r = E.EReference(nm(), rng.choice(classes), lower=lo, upper=up, ordered=rng.random() < .8, unique=True,
                              containment=rng.random() < .4)
             add(c.eStructuralFeatures, r)
@@ -140,7 +140,7 @@ def signature(pkg):
             if isinstance(c, E.EClass):
                 out.append(('class', here, c.name, bool(c.abstract), bool(c.interface), [tname(s) for s in c.eSuperTypes], ann(c)))
                 for f in c.eStructuralFeatures:
-                    common_ = (f.name, tname(f.eType), f.lowerBound, f.upperBound, bool(f.ordered), bool(f.unique),
+                    common_ = (f.name, tname(f.eType), f.lowerBound, f.upperBound, bool(f.many), bool(f.ordered), bool(f.unique),
                                bool(f.changeable), bool(f.derived), bool(f.transient), bool(f.volatile))
                     if isinstance(f, E.EAttribute):
                         out.append(('attribute', c.name) + common_ + (bool(f.iD), f.defaultValueLiteral))
